@@ -288,7 +288,14 @@ def workbook_case(ctx, case: dict, tag: str, advisory: bool = False):
     if not impl_obs:
         ctx.count("warning:none")
     if canon(impl_obs) != canon(model_obs):
-        ctx.mismatch("warnings multiset: model vs implementation", case, canon(impl_obs), canon(model_obs))
+        # a repaired known defect (implementation = what is due, model = due modulo the finding's shape) is not a
+        # disagreement: the model carries the defect's copy until the finding is closed
+        m2, _ = strip_f28(model_obs, case)
+        s2, _ = strip_short_langs(spec_obs)
+        if canon(impl_obs) == canon(spec_obs) and canon(m2) == canon(s2):
+            ctx.count("known-finding-repaired-in-implementation")
+        else:
+            ctx.mismatch("warnings multiset: model vs implementation", case, canon(impl_obs), canon(model_obs))
     # the oracle, on the implementation's output
     if canon(impl_obs) != canon(spec_obs):
         i2, f28 = strip_f28(impl_obs, case)
@@ -410,7 +417,10 @@ def misspell_direct(ctx, key: str, keys: list):
         ctx.count("misspell:unsupported")
         return
     if impl != v["model"]:
-        ctx.mismatch("find_sheet_misspellings: model vs implementation", {"key": key, "keys": keys[:50]}, impl, v["model"])
+        if (impl or []) == v["spec"] and [c for c in (v["model"] or []) if not (c.lower() in SUPPORTED and c not in SUPPORTED)] == v["spec"]:
+            ctx.count("known-finding-repaired-in-implementation")  # F28 repaired; the model still carries its copy
+        else:
+            ctx.mismatch("find_sheet_misspellings: model vs implementation", {"key": key, "keys": keys[:50]}, impl, v["model"])
     # oracle: candidates = names within distance 2 that are not a spelling of a supported sheet, not underscore-prefixed
     due = v["spec"]
     got = impl or []
@@ -635,9 +645,12 @@ def iana_cases(ctx, n):
         impl = list(get_languages_with_bad_tags(langs))
         v = ctx.driver.call("warn.iana", langs=langs, tags=relevant_tags(langs))
         ctx.count("iana:batches")
-        if impl != v["bad"]:
-            ctx.mismatch("get_languages_with_bad_tags: model vs implementation", {"langs": langs}, impl, v["bad"])
         due = v["spec"][0][1] if v["spec"] else []
+        if impl != v["bad"]:
+            if impl == due and v["bad"] == [l for l in due if len(l) >= 3]:
+                ctx.count("known-finding-repaired-in-implementation")  # F39 repaired; the model still carries its copy
+            else:
+                ctx.mismatch("get_languages_with_bad_tags: model vs implementation", {"langs": langs}, impl, v["bad"])
         if impl != due:
             s2, f39 = strip_short_langs(v["spec"])
             if f39 and impl == (s2[0][1] if s2 else []):
